@@ -139,3 +139,52 @@ NOTES["C17"] = dict(
     note="Partial: rounding drift (1e-6 relative); PCG's mixed residual scaling is not checked (only its use as history perturbation in C09).",
     technique="Lean 4 proof of the recurrences and stop logic on an executable model; iterate-level correspondence with independent residuals",
 )
+
+NOTES["C14"] = dict(
+    text=("Lean theorems over a linearly ordered field: the classical and symmetric strength models keep the stored diagonal of every non-empty row, "
+          "every row of S is a sublist of the row of A (original entries, values, order), and an off-diagonal entry is kept iff it passes the "
+          "documented strict threshold test against theta times the row's extreme off-diagonal of sign opposite to the diagonal (sentinel-free "
+          "statements under |entries| < RAND_MAX; variable filter; symmetric: row test or column's row test). The model is array-equal to the "
+          "real sequential routine (dyadic data, exact comparisons); the distributed routine's gathered result equals the sequential model on "
+          "every generated layout, and the membership test is re-evaluated independently on every output."),
+    note="Trusted: Lean kernel + standard axioms; dyadic data make comparisons exact; |entries| < RAND_MAX.",
+    technique="Lean 4 proof on an executable model; exact array correspondence (seq) and gathered-matrix correspondence (par)",
+)
+NOTES["C13"] = dict(
+    text=("Lean theorems for the round-based PMIS and CLJP models (functions of the graph and the weights only, hence partition independent): lengths and "
+          "labels in {C,F,unassigned}, assigned vertices never change, weight invariants, every round selects at least one vertex (no "
+          "distinctness needed), so after n (n+1) rounds every vertex is labelled (pmis_total, cljp_total); with distinct weights mutually "
+          "dependent vertices are never both coarse; every fine vertex has a coarse strong neighbour or nobody depends on it. The models "
+          "reproduce the labels of the real sequential routines and of the distributed routines on every generated layout; totality, halo "
+          "labels = owners' labels and the Ruge-Stuben neighbour clauses are evaluated on every output."),
+    note=("Ruge-Stuben first/second pass, Falgout and HMIS: specification predicates only. Open findings: distributed RS ignores off-process "
+          "dependencies; distributed PMIS/CLJP treat vertices without own dependency differently from the sequential routines."),
+    technique="Lean 4 proof on round-synchronous executable models; label-level correspondence (seq and par)",
+)
+NOTES["C12"] = dict(
+    text=("Lean theorems for the direct and modified-classical interpolation models (see Props/C12.lean for the list proved at this commit): "
+          "injection rows in coarse numbering order, support within strong coarse neighbours, non-zero denominators under the M-matrix guard, "
+          "weights summing to one on zero-row-sum rows. The models reproduce the real sequential routines at double precision; the "
+          "specification (injection, support incl. distance two for extended, finiteness, constants) is evaluated on the outputs of all three "
+          "sequential and distributed routines, and the gathered distributed operator is compared with the real sequential operator built "
+          "from the same matrix, strength pattern and splitting on every layout."),
+    note="Extended interpolation: specification predicates and par = seq only. Rows touching the distributed-only NoNeighbors label are outside the par = seq comparison.",
+    technique="Lean 4 proof on executable models of direct / modified classical interpolation; Float correspondence; spec evaluation on outputs",
+)
+NOTES["C15"] = dict(
+    text=("Round-based executable models of MIS-2 (tentative / confirm / exclude) and of the two-pass aggregation, functions of graph and keys only; "
+          "theorems in Props/C15.lean (as proved at this commit). The models reproduce the labels and aggregates of the real sequential and "
+          "distributed routines on every generated graph/layout; independence at distance two, maximality, halo agreement, one aggregate per "
+          "non-isolated vertex with its root within two edges, roots in their own aggregate and the returned aggregate counts are evaluated "
+          "on every output."),
+    note="Symmetric strength graphs (the property's domain).",
+    technique="Lean 4 proof on round-synchronous executable models; label/aggregate-level correspondence (seq and par)",
+)
+NOTES["C16"] = dict(
+    text=("The identities of the property are evaluated on the real outputs of fit_candidates and jacobi_prolongation (sequential and distributed, "
+          "arbitrary aggregations incl. singletons, aggregates spanning ranks and unaggregated vertices): T supported on its aggregates, unit-norm "
+          "columns, T R = B, and P = (I - omega D^-1 A)^k T recomputed densely; theorems in Props/C16.lean (as proved at this commit) plus the "
+          "SpGEMM/subtract theorems of C06/C07 on which the smoothing identity rests."),
+    note="Partial: rounding (1e-10 relative); one candidate per aggregate.",
+    technique="Lean 4 proof of the algebraic identities; dense re-evaluation of the real outputs",
+)
